@@ -20,6 +20,21 @@ def decode(x):
     return float(x)
 
 
+class _Summary:
+    """summary k of a simulated id: id + 10000*k (optionally as a vector); picklable (worker processes)"""
+
+    def __init__(self, k, width):
+        self.k, self.width = k, width
+        self.__name__ = "summary%d" % k
+
+    def __call__(self, y):
+        y = np.asarray(y, dtype=float)
+        out = y + 10000.0 * self.k
+        if self.width:
+            out = np.repeat(out.reshape(-1, 1), self.width, axis=1) + np.arange(self.width) * 0.125
+        return out
+
+
 class T1Model:
     """prior(s) -> sim (ids from meta) -> summaries -> discrepancy (table)."""
 
@@ -70,14 +85,7 @@ class T1Model:
         return ids.astype(float)
 
     def _make_summary(self, k):
-        def summary(y):
-            y = np.asarray(y, dtype=float)
-            out = y + 10000.0 * k
-            if self.width:
-                out = np.repeat(out.reshape(-1, 1), self.width, axis=1) + np.arange(self.width) * 0.125
-            return out
-        summary.__name__ = "summary%d" % k
-        return summary
+        return _Summary(k, self.width)
 
     def id_of_summary(self, k, v):
         """inverse of summary k on one row (any width)."""
